@@ -376,7 +376,12 @@ func (x *c05F[P, F, S]) tamperVV(vv c05VV[P, S], k int, how int, small bool) c05
 func c05Feldman[P curves.Point[P, F, S], F algebra.FiniteFieldElement[F], S algebra.PrimeFieldElement[S]](
 	c *Ctx, r *Rng, curve string, group curves.Curve[P, F, S], field algebra.PrimeField[S], as c05AS, full bool,
 ) {
-	scheme, err := feldman.NewScheme(algebra.PrimeGroup[P, S](group), as.ac)
+	var scheme *feldman.Scheme[P, S]
+	var err error
+	if p := safely(func() string { scheme, err = feldman.NewScheme(algebra.PrimeGroup[P, S](group), as.ac); return "" }); p != "" {
+		c.Violation("feldman.NewScheme panicked for " + as.family + ": " + p)
+		return
+	}
 	if err != nil {
 		c.Note("feldman.NewScheme rejected " + as.family)
 		c.Count("feldman.scheme.rejected." + as.family)
